@@ -803,6 +803,8 @@ impl<R: Read> RdbReader<R> {
         let mut current_db = 0;
         
         loop {
+            #[cfg(feature = "verif-hooks")]
+            crate::verif_hooks::point(crate::verif_hooks::RDB_LOAD_STEP, 0);
             let opcode = self.read_byte()?;
             
             match opcode {
